@@ -381,6 +381,32 @@ func checkErrorsReturnedX(c *Ctx, rule string, f *ssa.Function, errIdx int, skip
 				why = "a success return is reachable after the call without passing the test err == nil (" + c.P.InstrPos(r) + ")"
 			}
 		}
+		// a loop that runs the call again overwrites the error: going round without having passed err == nil (or an
+		// absorbing test) drops it just the same
+		if ok && len(succ) > 0 {
+			isErr := func(v ssa.Value) bool {
+				if v == ev {
+					return true
+				}
+				has := false
+				for _, o := range originsOf(v) {
+					if oIsValue(ev)(o) {
+						has = true
+					} else if !isNilConst(o.V) {
+						return false
+					}
+				}
+				return has
+			}
+			cut := factNil(isErr, true)
+			if absorbed != nil {
+				cut = anyFact(cut, absorbed(ev))
+			}
+			if pathExists(f, call, call, cut, nil) {
+				ok = false
+				why = "the call can be executed again (next loop iteration) after it failed, without the error having been returned: the failure is swallowed"
+			}
+		}
 		c.obI(rule, call, "err-of-"+name, ok, "after a fallible call the success return is reached only through err == nil (errors are returned, not swallowed)", why)
 	}
 }
